@@ -248,6 +248,10 @@ func NewTypecast(scope *types.Scope, imports util.ImportNames, t types.Type, inn
 	var expr string
 	switch typ := util.DerefPtr(t).(type) {
 	case *types.Named:
+		if 0 < typ.TypeArgs().Len() {
+			// The name alone does not denote an instantiated generic type.
+			return nil, false
+		}
 		// If the type is predeclared (it has no package, e.g. error) or defined within the current package.
 		// Another object of the current package that merely has the same name does not make the type local.
 		if typ.Obj().Pkg() == nil || scope.Lookup(typ.Obj().Name()) == typ.Obj() {
